@@ -178,4 +178,16 @@ def handlePExclFile : List String → Option String
     pure s!"{mStr}\t{b2s v}"
   | _ => none
 
+/-- read fault after `at` bytes: the only acceptable answer is an error (never a truncated list) -/
+def handlePFault (ports : Bool) : List String → Option String
+  | [h, atS, obs] => do
+    let data ← hexToChars h
+    let atN ← parseNat? atS
+    let delivered := data.take atN      -- ASCII data: bytes = chars
+    let m : String :=
+      if ports then (match withReadFault parsePortsFile delivered with | .panic => "PANIC" | .ok _ => "OK" | .err => "ERR")
+      else (match withReadFault parseExcludeFile delivered with | .panic => "PANIC" | .ok _ => "OK" | .err => "ERR")
+    pure s!"{m}\t{b2s (obs == "ERR")}"
+  | _ => none
+
 end Driver
